@@ -1880,3 +1880,126 @@ class TreeFlattenOneLevel(PyContract):
                 ('path_entry_type-of-the-handler', d.get('path_entry_type') == h_attr('path_entry_type')(self.H()) if 'path_entry_type' in d else z3.BoolVal(False)),
                 ('kind-of-the-handler', d.get('kind') == h_attr('kind')(self.H()) if 'kind' in d else z3.BoolVal(False))]
         return out
+
+
+# ======================================================================================================================
+# C19: optree/functools.py - the pytree protocol of optree.functools.partial and the call shim
+
+part_attr = {a: z3.Function('attr_' + a, Ref, Ref) for a in ('args', 'keywords', 'func', 'partial_func')}
+call_result = z3.Function('result_of_the_call', Ref, Ref)
+
+
+def same_obj(eng, a, b):
+    """`a is b` for engine values: decided by the solver for object references, syntactically for engine-level values."""
+    if is_z3(a) and is_z3(b):
+        return eng.identical(a, b)
+    return z3.BoolVal(a is b)
+
+
+class PartialBase(PyContract):
+    module = 'optree/functools.py'
+
+    def setup(self, eng, st, fn):
+        super().setup(eng, st, fn)
+        st.ghost['calls'] = ()
+
+    def attribute(self, eng, st, base, attr):
+        if is_z3(base) and base.sort() == Ref and attr in part_attr:
+            return part_attr[attr](base)
+        return None
+
+    def call(self, eng, st, f, args, kwargs, n, stars):
+        if is_z3(f) and f.sort() == Ref:
+            # calling an object (the wrapped callable / the class): recorded with its exact argument structure
+            st.ghost['calls'] = st.ghost['calls'] + ((f, tuple(args), tuple(stars), dict(kwargs)),)
+            s_exc = st.clone()
+            eng.throw(s_exc, 'Exception', n.lineno, 'from the called object')
+            return [(st, call_result(f))]
+        return None
+
+    def raises(self, eng, st, entry):
+        return {'Exception': None}
+
+
+@pycontract
+class ShimCall(PartialBase):
+    """_HashablePartialShim.__call__(self, *args, **kwargs) is exactly self.partial_func(*args, **kwargs): one call, of the
+    wrapped functools.partial, with the caller's positional arguments and keyword mapping and nothing else - so the
+    precedence between the inner partial's keywords and the caller's is the one functools.partial itself implements."""
+    function = '_HashablePartialShim.__call__'
+
+    def setup(self, eng, st, fn):
+        super().setup(eng, st, fn)
+        self.args = SeqV(z3.Int('number_of_args'), lambda i: z3.Function('arg_at', Int, Ref)(i))
+        self.kwargs = z3.Const('kwargs', Ref)
+        st.env.vars['args'] = self.args
+        st.env.vars['kwargs'] = self.kwargs
+
+    def post(self, eng, st, entry, ret):
+        me = entry.env.get('self')
+        calls = st.ghost['calls']
+        out = [('exactly-one-call', z3.BoolVal(len(calls) == 1))]
+        if len(calls) != 1:
+            return out
+        f, plain, stars, kw = calls[0]
+        return out + [('calls-the-wrapped-partial', f == part_attr['partial_func'](me)),
+                      ('no-extra-positional-arguments', z3.BoolVal(len(plain) == 0)),
+                      ('passes-exactly-the-callers-positional-arguments', z3.BoolVal(len(stars) == 1 and stars[0] is self.args)),
+                      ('passes-exactly-the-callers-keyword-mapping-and-no-other-keyword',
+                       z3.BoolVal(set(kw) == {'**'}) if set(kw) != {'**'} else same_obj(eng, kw['**'], self.kwargs)),
+                      ('returns-the-result-of-that-call', same_obj(eng, ret, call_result(f)))]
+
+
+@pycontract
+class PartialFlatten(PartialBase):
+    """partial.tree_flatten(self) == ((self.args, self.keywords), self.func, ('args', 'keywords'))."""
+    function = 'partial.tree_flatten'
+
+    def post(self, eng, st, entry, ret):
+        me = entry.env.get('self')
+        ok = isinstance(ret, TupV) and len(ret.items) == 3 and isinstance(ret.items[0], TupV) and len(ret.items[0].items) == 2 \
+            and isinstance(ret.items[2], TupV) and len(ret.items[2].items) == 2
+        out = [('returns-(children, metadata, entries)-of-the-documented-shape', z3.BoolVal(ok)),
+               ('calls-nothing', z3.BoolVal(len(st.ghost['calls']) == 0))]
+        if not ok:
+            return out
+        ch, md, en = ret.items
+        lit = lambda v: z3.Const('strlit_' + str(abs(hash(v)) % 10**8), Str)      # the engine's constant for a string literal
+        names_ok = all(is_z3(x) and x.eq(lit(v)) for x, v in zip(en.items, ('args', 'keywords')))
+        return out + [('children-are-(args, keywords)-in-this-order', z3.And(same_obj(eng, ch.items[0], part_attr['args'](me)),
+                                                                            same_obj(eng, ch.items[1], part_attr['keywords'](me)))),
+                      ('metadata-is-the-wrapped-callable', same_obj(eng, md, part_attr['func'](me))),
+                      ('entries-name-the-attributes-in-the-same-order', z3.BoolVal(names_ok))]
+
+
+@pycontract
+class PartialUnflatten(PartialBase):
+    """partial.tree_unflatten(cls, metadata, (args, keywords)) is exactly cls(metadata, *args, **keywords)."""
+    function = 'partial.tree_unflatten'
+
+    def to_seq(self, eng, st, v):
+        if is_z3(v) and v.sort() == Ref:
+            item = z3.Function('py_item_of', Ref, Int, Ref)
+            return SeqV(z3.Function('py_len_of', Ref, Int)(v), lambda i, v=v: item(v, i))
+        return None
+
+    def raises(self, eng, st, entry):
+        return {'Exception': None, 'ValueError': None}
+
+    def post(self, eng, st, entry, ret):
+        cls, md, ch = entry.env.get('cls'), entry.env.get('metadata'), entry.env.get('children')
+        item = z3.Function('py_item_of', Ref, Int, Ref)
+        calls = st.ghost['calls']
+        out = [('exactly-one-call', z3.BoolVal(len(calls) == 1))]
+        if len(calls) != 1:
+            return out
+        f, plain, stars, kw = calls[0]
+        shape = len(plain) == 1 and len(stars) == 1 and set(kw) == {'**'} and is_z3(stars[0]) and is_z3(kw.get('**'))
+        out.append(('call-shape-is-cls(metadata, *args, **keywords)', z3.BoolVal(shape)))
+        if not shape:
+            return out
+        return out + [('constructs-an-instance-of-the-given-class', same_obj(eng, f, cls)),
+                      ('wrapped-callable-is-the-metadata', same_obj(eng, plain[0], md)),
+                      ('positional-arguments-are-the-first-child', stars[0] == item(ch, 0)),
+                      ('keywords-are-the-second-child', kw['**'] == item(ch, 1)),
+                      ('returns-the-new-instance', same_obj(eng, ret, call_result(f)))]
